@@ -43,7 +43,8 @@ MANIFEST = dict(
               "differential check",
 )
 
-THEOREMS = ["C22_exit", "C22_exit_0_or_1", "C22_streams", "C22_e_is_file"]
+THEOREMS = ["C22_exit", "C22_exit_0_or_1", "C22_streams", "C22_e_is_file", "C22_args",
+            "C22_no_prelude_implies_no_init", "C22_stdin_ignored_without_inspect"]
 RS = "\x1e"
 
 
@@ -56,8 +57,20 @@ def cli_env(home):
     return env
 
 
-def run_cli(binary, home, idx, file_text, exprs, prelude):
-    args = [binary, "--no-config", "--no-init", "--color", "never"]
+def run_cli(binary, home, idx, file_text, exprs, prelude, flags=(), stdin_text=None, init_text=None):
+    """one process run.  With init_text the run gets its own HOME containing cfg/numbat/init.nbt."""
+    if init_text is not None:
+        home = os.path.join(home, "h%d" % idx)
+        os.makedirs(os.path.join(home, "cfg", "numbat"), exist_ok=True)
+        with open(os.path.join(home, "cfg", "numbat", "init.nbt"), "w", encoding="utf-8") as f:
+            f.write(init_text)
+    args = [binary, "--no-config", "--color", "never"]
+    if "init" not in flags:
+        args.append("--no-init")          # default of this driver: do not look for an init file
+    if "no-init" in flags and "--no-init" not in args:
+        args.append("--no-init")
+    if "inspect" in flags:
+        args.append("-i")
     if not prelude:
         args.append("-N")
     if file_text is not None:
@@ -68,17 +81,22 @@ def run_cli(binary, home, idx, file_text, exprs, prelude):
     for e in exprs or []:
         args += ["-e", e]
     try:
-        p = subprocess.run(args, stdout=subprocess.PIPE, stderr=subprocess.PIPE, timeout=120, env=cli_env(home),
-                           stdin=subprocess.DEVNULL)
+        p = subprocess.run(args, stdout=subprocess.PIPE, stderr=subprocess.PIPE, timeout=180, env=cli_env(home),
+                           input=(stdin_text or "").encode("utf-8"))
         return p.returncode, p.stdout.decode("utf-8", "replace"), p.stderr.decode("utf-8", "replace")
     except subprocess.TimeoutExpired:
         return -999, "", "TIMEOUT"
 
 
 def run_many(binary, home, jobs):
-    """jobs: list of (file_text|None, exprs|None, prelude)"""
+    """jobs: list of (file_text|None, exprs|None, prelude[, flags, stdin_text, init_text])"""
     with cf.ThreadPoolExecutor(max_workers=common.NPROC) as ex:
         return list(ex.map(lambda kj: run_cli(binary, home, kj[0], *kj[1]), enumerate(jobs)))
+
+
+def norm_stderr(err):
+    """diagnostics with the source label replaced (the only thing that may differ between file and -e)"""
+    return re.sub(r"(File [^\s:]+|<input:\d+>)", "<source>", err)
 
 
 def observe(rc, out, err):
@@ -208,7 +226,7 @@ def run(chk):
     for c in corpus:
         if c["kind"] == "toy":
             toy.append((c["lines"], c.get("fails"), c["mode"], c.get("file"), c.get("exprs")))
-    for _ in range(50 if quick else 1500):
+    for _ in range(40 if quick else 1500):
         lines, kind = gen_toy_program(rng)
         for mode, ft, ex in split_modes(rng, lines):
             toy.append((lines, kind, mode, ft, ex))
@@ -223,13 +241,67 @@ def run(chk):
                                        "Gen.CtxSkeleton"], items, "c22",
                                       shard_size=max(8, -(-len(items) // common.NPROC)))
 
+    # ---- part 1b: arguments (init file, --no-init, -i, stdin) on miniature programs, model vs binary
+    full = []       # (fields, job)
+    for _ in range(30 if quick else 600):
+        lines, kind = gen_toy_program(rng)
+        r = rng.random()
+        if r < 0.25:
+            ft, ex = None, None                      # no file, no -e: the REPL reads stdin
+        elif r < 0.6:
+            ft, ex = "\n".join(lines), None
+        else:
+            ft, ex = None, list(lines)
+        flags = []
+        init = None
+        if rng.random() < 0.5:
+            init = rng.choice(["let x = 5", "unit ua", "let = 1", "1 / 0"])
+            flags.append("init")                     # do not pass --no-init unless chosen below
+            if rng.random() < 0.4:
+                flags.append("no-init")
+        if rng.random() < 0.6 or (ft is None and ex is None):
+            if not (ft is None and ex is None):
+                flags.append("inspect")
+        stdin_lines = []
+        if "inspect" in flags or (ft is None and ex is None) or rng.random() < 0.3:
+            l2, _ = gen_toy_program(rng)
+            stdin_lines = list(l2)
+            if rng.random() < 0.4:
+                stdin_lines.insert(rng.randrange(len(stdin_lines) + 1), "")
+            if rng.random() < 0.3:
+                stdin_lines.insert(rng.randrange(len(stdin_lines) + 1), rng.choice(["quit", "exit"]))
+        fields = []
+        if ft is not None:
+            fields.append(("F", ft))
+        for e in ex or []:
+            fields.append(("E", e))
+        if init is not None:
+            fields.append(("G", init))
+        if "no-init" in flags or init is None:
+            fields.append(("n", ""))
+        if "inspect" in flags:
+            fields.append(("i", ""))
+        for l in stdin_lines:
+            fields.append(("Z", l))
+        full.append((fields, (ft, ex, False, tuple(flags), "".join(l + "\n" for l in stdin_lines), init)))
+    full_res = run_many(cli, home, [j for _, j in full])
+    full_obs = [observe(*r) for r in full_res]
+    items2 = [("show_cli_full_line current_skeleton %s" % common.coq_string(S.case_line(f)), full_obs[n])
+              for n, (f, _) in enumerate(full)]
+    bad_full = common.coq_mismatches(["Session.Resolver", "Session.Context", "Session.Toy", "Session.CliExec",
+                                      "Gen.CtxSkeleton"], items2, "c22b",
+                                     shard_size=max(8, -(-len(items2) // common.NPROC)))
+    for kk, v in bad_full.items():
+        bad_model[len(items) + kk] = v
+    toy_obs_all = toy_obs + full_obs
+
     t2 = time.time()
     # ---- part 2: prelude programs, library vs binary, file vs -e
     std = []
     for c in corpus:
         if c["kind"] == "std":
             std.append((c["lines"], c.get("fails")))
-    for _ in range(40 if quick else 1000):
+    for _ in range(30 if quick else 1000):
         std.append(gen_std_program(rng))
     lib = S.run_sessions(binary_h, [[("J", "use prelude"), ("F", "\n".join(l))] for l, _ in std])
     jobs = []
@@ -269,6 +341,31 @@ def run(chk):
         if (a[0], a[1]) != (b[0], b[1]):
             problems.append(("std", n, "file vs -e", "as file: exit %d stdout %r ; as -e: exit %d stdout %r" % (
                 a[0], a[1][:300], b[0], b[1][:300])))
+        elif norm_stderr(a[2]) != norm_stderr(b[2]):
+            problems.append(("std", n, "file vs -e", "stderr differs beyond the source label: %r vs %r" % (
+                a[2][:400], b[2][:400])))
+        # byte-exact stdout: the lines the library produced, each terminated by a newline
+        if ok and a[1] != "".join(x + "\n" for x in exp_lines):
+            problems.append(("std", n, "file", "stdout bytes %r differ from %r" % (a[1], "".join(x + "\n" for x in exp_lines))))
+    # ---- part 2b: the init file and the flags that switch it off, with the prelude
+    init_jobs = [
+        ("let ini = 41", ["ini + 1"], ("init",), True, ["42"]),
+        ("let ini = 41", ["ini + 1"], ("init", "no-init"), False, []),
+        ("let ini = 41", ["ini + 1"], ("init", "N"), False, []),
+        ("let = 1", ["1"], ("init",), False, []),
+        ("let = 1", ["1"], ("init", "no-init"), True, ["1"]),
+        ("print(\"from init\")", ["2"], ("init",), True, ["from init", "2"]),
+    ]
+    init_res = run_many(cli, home, [(None, ex, "N" not in fl, tuple(f for f in fl if f != "N"), None, it)
+                                    for it, ex, fl, _, _ in init_jobs])
+    for (it, ex, fl, want_ok, want_out), (rc, out, err) in zip(init_jobs, init_res):
+        got = out.split("\n")
+        if got and got[-1] == "":
+            got.pop()
+        if (rc == 0) != want_ok or (want_ok and got != want_out) or (bool(err.strip()) == want_ok):
+            problems.append(("init", [it] + ex, "flags %s" % (fl,), "init.nbt %r, -e %r, flags %s: exit %d stdout %r stderr %r" % (
+                it, ex, fl, rc, out[:200], err[:200])))
+    stats["init_flag_runs"] = len(init_jobs)
     # the same on the toy runs (direct statement of the property: status 0 iff no failure was generated
     # cannot be known without the model, so toy runs are judged by the model correspondence only, plus file vs -e)
     groups = collections.defaultdict(list)
@@ -312,6 +409,9 @@ def run(chk):
         if p[0] == "std":
             lines = std[p[1]][0]
             prelude = True
+        elif p[0] == "init":
+            lines = p[1]
+            prelude = True
         else:
             lines = p[1]
             prelude = False
@@ -328,8 +428,10 @@ def run(chk):
             "theorem_or_correspondence": ("Session/CliExec.v vs `numbat -N` on miniature programs" if bad_model
                                           else "Props/C22.v: " + getattr(chk, "proof_failure", "?")),
             "mismatching_cases": len(bad_model),
-            "first_case": None if k is None else {"mode": toy[k][2], "file": toy[k][3], "exprs": toy[k][4],
-                                                  "binary": toy_obs[k], "model": bad_model[k]},
+            "first_case": None if k is None else (
+                {"mode": toy[k][2], "file": toy[k][3], "exprs": toy[k][4], "binary": toy_obs[k], "model": bad_model[k]}
+                if k < len(toy) else
+                {"fields": full[k - len(toy)][0], "binary": full_obs[k - len(toy)], "model": bad_model[k]}),
         }, found_input=False)
 
     for _, kind, mode, _, _ in toy:
@@ -342,7 +444,8 @@ def run(chk):
             distinct.add((tuple(lines), mode))
     shutil.rmtree(home, ignore_errors=True)
     chk.cov.update({
-        "evaluations": len(toy) + 2 * len(std),
+        "evaluations": len(toy) + len(full) + 2 * len(std) + len(init_jobs),
+        "argument_runs": len(full),
         "distinct_nontrivial": len(distinct) + len(set(tuple(l) for l, _ in std if len(l) > 1)),
         "rule": "process runs of the real binary: miniature programs (1-7 statements, 55% with a failing statement of a "
                 "random kind at a random position) as file / one -e per line / two multi-line -e / file + -e, compared "
